@@ -274,6 +274,9 @@ func c15BothSucceed(c *core.Ctx, fn *ssa.Function, key string, br, both *ssa.Fun
 		if call, ok := ev.(*ssa.Call); ok && facts.CalleeName(&call.Call) == "fmt.Errorf" {
 			continue
 		}
+		if !facts.IsNilConst(ev) && facts.ProvablyNonNil(ev, r.Block()) {
+			continue
+		}
 		// the result is produced by a package-local helper: the obligation moves into the helper
 		if h := resultHelper(ev, r, br, both); h != nil {
 			if !c15Visited[h] {
@@ -294,8 +297,14 @@ func c15BothSucceed(c *core.Ctx, fn *ssa.Function, key string, br, both *ssa.Fun
 			eqForm := false
 			for _, cd := range facts.CondsAt(r.Block()) {
 				if x, isNil, okc := facts.NilCheck(cd); okc && isNil {
-					if _, fld, isF := facts.FieldOf(facts.Resolve(x)); isF && fld == "err" {
-						bothNil[facts.Term(x)] = true
+					if b, fld, isF := facts.FieldOf(facts.Resolve(x)); isF && fld == "err" {
+						bothNil[errOwner(b)] = true
+					}
+					// a private helper reported no error: what that implies about its arguments
+					if call, isCall := facts.Resolve(x).(*ssa.Call); isCall {
+						for tm := range errNilImpliedBy(call, br) {
+							bothNil[tm] = true
+						}
 					}
 				}
 				if bo, isBo := cd.V.(*ssa.BinOp); isBo && bo.Op == token.EQL && cd.Pos {
@@ -504,4 +513,94 @@ func rootErr(v ssa.Value) ssa.Value {
 		v = next
 	}
 	return v
+}
+
+// errNilImpliedBy: call is a call of a private helper returning a sole error;
+// the result is the set of `<x>.err` terms (in the caller's vocabulary) that
+// are known nil on EVERY path on which the helper returns a nil error.
+func errNilImpliedBy(call *ssa.Call, br *ssa.Function) map[string]bool {
+	h := call.Call.StaticCallee()
+	if h == nil || h.Blocks == nil || len(privateCallSites(h)) == 0 {
+		return nil
+	}
+	res := h.Signature.Results()
+	if res.Len() != 1 || res.At(0).Type().String() != "error" {
+		return nil
+	}
+	var inter map[string]bool
+	withParams(h, call, func() {
+		for _, r := range returnsOf(h) {
+			ev := facts.RetVal(r, 0)
+			if !facts.IsNilConst(ev) && facts.ProvablyNonNil(ev, r.Block()) {
+				continue
+			}
+			here := map[string]bool{}
+			if !facts.IsNilConst(ev) {
+				// the combined error of bothResults(a, b) is nil only if both a and b
+				// succeeded (C15.R2 bothResults/success-needs-both)
+				known := false
+				if b, fld, isF := facts.FieldOf(ev); isF && fld == "err" {
+					bv := facts.Resolve(b)
+					if al, isAl := bv.(*ssa.Alloc); isAl {
+						if sts := facts.StoresTo(al); len(sts) == 1 {
+							bv = facts.Resolve(sts[0].Val)
+						}
+					}
+					if bc, isCall := bv.(*ssa.Call); isCall && br != nil && len(bc.Call.Args) == 2 {
+						if sc := bc.Call.StaticCallee(); sc != nil && (sc == br || sc.Origin() == br) {
+							here[errOwner(bc.Call.Args[0])] = true
+							here[errOwner(bc.Call.Args[1])] = true
+							known = true
+						}
+					}
+				}
+				if !known {
+					// may be nil, and nothing is known then
+					inter = map[string]bool{}
+					return
+				}
+			}
+			for _, cd := range facts.CondsAt(r.Block()) {
+				if x, isNil, ok := facts.NilCheck(cd); ok && isNil {
+					if b, fld, isF := facts.FieldOf(facts.Resolve(x)); isF && fld == "err" {
+						here[errOwner(b)] = true
+					}
+				}
+			}
+			if inter == nil {
+				inter = here
+			} else {
+				for k := range inter {
+					if !here[k] {
+						delete(inter, k)
+					}
+				}
+			}
+		}
+	})
+	return inter
+}
+
+// errOwner names the result carrier whose err field is meant, independently of
+// how it is accessed: a parameter spilled to a local cell, a load of that cell
+// and the parameter itself all give the parameter's term (bound to the call's
+// argument while a helper is summarised).
+func errOwner(b ssa.Value) string {
+	for d := 0; d < 6; d++ {
+		b = facts.Resolve(b)
+		switch x := b.(type) {
+		case *ssa.UnOp:
+			if x.Op == token.MUL {
+				b = x.X
+				continue
+			}
+		case *ssa.Alloc:
+			if sts := facts.StoresTo(x); len(sts) == 1 {
+				b = sts[0].Val
+				continue
+			}
+		}
+		break
+	}
+	return facts.Term(b)
 }
